@@ -84,6 +84,10 @@ def cases(tier, seed):
                         # the training loops save right after test(), i.e. in inference mode
                         "eval_mode_at_save": bool(rng.random() < 0.4),
                         "nondefault": bool((h + zoo.ALL.index(algo)) % 3 == 1),
+                        # load_checkpoint: the EXISTING agent the file is loaded into has a life of its own (other optional
+                        # constructor values, own mutations / learn steps) - as a population member has
+                        "receiver": [None, ["mut:rl_hp"], ["learn", "mut:arch"], ["mut:act", "learn"], ["mut:param"]][int(rng.integers(5))]
+                        if path == "load_checkpoint" else None,
                     }
                     if algo in zoo.HAS_SHARE_ENCODERS:
                         c["share_encoders"] = bool(h % 2 == 0)
@@ -120,8 +124,8 @@ def _carrier(case, path: str) -> str:
     if case.get("share_encoders") and re.match(r"^critic[^/]*/encoder\.", path):
         return "shared_encoder_copy"
     root = path.split("/")[0].split("[")[0]
-    if root in ("target_params", "param_vals") or "target" in root:
-        return "target_network"
+    if root in ("target_params", "param_vals") or (root.endswith("_target") or root.endswith("_targets")) and "/" in path:
+        return "target_network"  # leaves of a target NETWORK (actor_target/..., critic_targets[..]/...), not attributes like target_kl
     return "network_or_attribute"
 
 
@@ -236,8 +240,31 @@ def run_case(case):
                 cls = type(zoo.unwrap(orig))
                 restored = cls.load(path)
             else:
-                restored = c01._build(dict(case, history=[], alt_lr=bool(case["seed"] % 2)))
+                restored = c01._build(dict(case, history=[], alt_lr=bool(case["seed"] % 2), alt_receiver=bool(case.get("receiver"))))
+                if case.get("receiver"):
+                    try:
+                        restored = agentops.apply_history(restored, case["receiver"], case["seed"] + 5)
+                        rec.hit("loads_into_an_agent_with_its_own_history")
+                    except CaseTimeout:
+                        raise
+                    except Exception as e:
+                        rec.hit("receiver_history_failed(info)")
+                        rec.extra["receiver_history_failed"] = f"{type(e).__name__}: {str(e)[:100]}"
+                        restored = c01._build(dict(case, history=[], alt_lr=bool(case["seed"] % 2)))
                 restored.load_checkpoint(path)
+            # a second agent restored from the very same file (nothing else read in between): two population members
+            # warm-started from one checkpoint
+            second = None
+            try:
+                if case["path"] == "load":
+                    second = type(zoo.unwrap(orig)).load(path)
+                else:
+                    second = c01._build(dict(case, history=[]))
+                    second.load_checkpoint(path)
+            except CaseTimeout:
+                raise
+            except Exception as e:
+                rec.crash(e, "load_raises", case["path"] + "(second load of the same file)", algo=algo)
         except CaseTimeout:
             raise
         except Exception as e:
@@ -314,6 +341,11 @@ def run_case(case):
         except Exception as e:
             rec.crash(e, "get_action_after_load_raises", case["path"], algo=algo)
 
+        second_before = None
+        if second is not None:
+            L2 = walk.agent_leaves(second)
+            rec.hit("second_restore_checks")
+            second_before = walk.fingerprint_map(L2)
         ran = False
         try:
             for j in range(case["k"]):
@@ -352,6 +384,23 @@ def run_case(case):
                     k=case["k"],
                     history=case["history"][: case["save_at"]],
                 )
+            if ran and second_before is not None:
+                # in-place bookkeeping of the first restored agent, then: the second one must not have moved at all
+                ur = zoo.unwrap(restored)
+                ur.scores.append(3.25)
+                ur.fitness.append(-1.5)
+                ur.steps[-1] += 11
+                try:
+                    zoo.train_action(restored, zoo.probe_obs(restored, 3, seed=case["seed"] % 9941))
+                except CaseTimeout:
+                    raise
+                except Exception:
+                    pass
+                rec.hit("second_restore_independence_checks")
+                ch = agentops.changed_paths(second_before, walk.fingerprint_map(walk.agent_leaves(second)))
+                if ch:
+                    rec.violate("second_restore", "agent_restored_from_the_same_file_changed_when_the_other_one_trained", case["path"],
+                                algo=algo, changed=ch[:5], n_changed=len(ch), categories=sorted({c01._category(c) for c in ch})[:6])
         except CaseTimeout:
             raise
         except Exception as e:
